@@ -183,6 +183,18 @@ theorem r1_full_refuted_by_annuity (tbl : List CallSite) (h : annuitySiteObserve
   revert this
   decide +kernel
 
+/-- After the repair (fix ed33e4a) the full statement holds on the table regenerated from the current source: no
+defect is excused any more. -/
+theorem r1_full : R1Full callSites := by
+  unfold R1Full
+  decide +kernel
+
+/-- the repaired annuity site as the current source has it: `bd_type` and `dg_type` are the constructor's own -/
+theorem annuity_forwards_bd_dg :
+    ∀ s ∈ callSites, s.callee = "Schedule" → s.cls = "BondAnnuity" →
+      ∀ f ∈ ["freq_type", "cal_type", "bd_type", "dg_type"], ∃ a ∈ s.args, a.formal.s = f ∧ a.kind = .param ∧ a.src.s = f := by
+  decide +kernel
+
 /-- R1 in full for every table on which the two recorded defect arguments are the only non-forwarding ones -/
 theorem r1_partial : ∀ s ∈ callSites, s.callee = "Schedule" → ∀ a ∈ s.args,
     excused designExceptions s a = false → excused knownDefects s a = false → forwards s a = true := by
